@@ -97,7 +97,7 @@ CLAIMED = {
 # additions after the coverage audit (DESIGN.md section 0.9): appended to the texts above
 EXTRA = {
  "C01": "Added: C01_one_reply (exactly one reply; a non-Success reply is HTTP 500 or one of four non-Success status codes), C01_failed_response_content (from the builder source: a failed response has no assertion content).",
- "C02": "Added: C02_accepted_record (an accepted request hands exactly one record to the storage: non-empty registered consumer URL, supported binding, the request's own RelayState / ID) and C02_end_to_end (a callback for a record storing those values delivers to that URL by that binding).",
+ "C02": "Added: the service-provider record of every case is checked against the registered metadata document (sprec_of_doc: model of Unmarshal + projection; consumer services in document order); C02_accepted_record (an accepted request hands exactly one record to the storage: non-empty registered consumer URL, supported binding, the request's own RelayState / ID) and C02_end_to_end (a callback for a record storing those values delivers to that URL by that binding).",
  "C03": "Added: C03_built_response / C03_built_attributes (the response document's fields, from the builder programs go2v translates from response.go / attributes.go), C03_delivery_from_source, C03_schema (struct tags vs the SAML schemas). The C18 correspondence rebuilds every real reply from those builders.",
  "C04": "Added: C04_redirect_url (the octets a verifier rebuilds from consumer URL + separator + query are the signed ones unless the consumer URL's own query names a signed parameter) and its refutation C04_redirect_url_refuted (F-04d, reproduced on the implementation, known), C04_signature_kind_from_source.",
  "C05": "Added: C05_keyinfo_registered (a KeyInfo the signature carries must contain a certificate registered for the provider).",
@@ -110,7 +110,7 @@ EXTRA = {
  "C13": "Added: the decode oracle as a function of the request document (lreq_of_doc), checked against DecodeLogoutRequest on every case; C13_built_response, C13_delivery_from_source, C13_codec, C13_schema.",
  "C14": "Added: C14_oversized_not_accepted / C14_oversized_decode_fails (an oversized DEFLATE payload is never accepted by the SSO handler, with decode = InflateAndDecode + parser).",
  "C15": "Added: C15_sso_program / C15_concurrent_sso (the SSO handler as a program over atomic storage operations; N concurrent SSO requests under every schedule are answered as alone on the initial storage and never share a stored request), C15_id_legal (NewID() values are legal xs:ID), C15_callbacks_among_sso (callbacks for requests that existed before the run are isolated among concurrently creating SSO threads).",
- "C16": "Added: C16_member without hypothesis; C16_rule_any_metadata (exact rule for arbitrary registered metadata, entries with empty Location included).",
+ "C16": "Added: registration keeps the consumer services as written and in document order (sprec_of_doc, checked in the SSO / logout / attribute-query correspondences); C16_member without hypothesis; C16_rule_any_metadata (exact rule for arbitrary registered metadata, entries with empty Location included).",
  "C17": "Added: C17_only_safe_schemes (any scheme other than http / https / mailto yields the fail-safe action).",
  "C18": "Added: C18_struct_document / C18_schema_names / C18_raw_xml_fields over a schema-driven model of encoding/xml's Marshal (Xml/Schema.v over the struct tags go2v copies into Gen/Schema.v); correspondence KStruct (values of random shape, byte for byte) KBuilt (every reply of the flows rebuilt from the translated builders + schema) and KUnm (the library decoders against a model of Unmarshal over the same schema).",
  "C20": "Added: C20_repeat (n evaluations of one chain value: n times the same verdict and events), C20_handlers_use_checker (the handler models' chain evaluation is the generated checker's).",
